@@ -14,7 +14,7 @@ PROP = dict(
          "(bare, one-field, two-field and array payload variants), nested to depth 3; per signature (quick) 7 / (thorough) 120 "
          "cases with seeded random argument values (written as Abra literals; in 2 of 5 cases half of all arrays, strings and options are empty/none so that empty values sit beside non-empty siblings among the arguments and inside arrays, tuples and structs) and an independent random result value (incl. "
          "non-finite floats, empty arrays, multibyte strings); each case is one Abra program compiled and run by the real "
-         "compiler and VM in one of four call shapes (single call; the same variable in two argument positions; the same variables passed to two successive calls; "
+         "compiler and VM in one of three call forms (direct, through a variable holding the host function, from inside an Abra function) and one of four call shapes (single call; the same variable in two argument positions; the same variables passed to two successive calls; "
          "the returned value passed back), optionally with one array object bound once and used in two places of the arguments, arrays then having >= 2 elements with first != last; "
          "after the call(s) the program re-reads every argument (and a passed-back result) and prints it; "
          "compiler and VM, whose host call is served with the generated HostFunctionArgs::from_vm / HostFunctionRet::into_vm; "
